@@ -152,7 +152,8 @@ class C01(Prop):
              ("structured", S.structured_d(rng, n)),
              ("near-miss", S.near_miss_d(rng, n // 4, per=8)),
              ("byte-level", S.byte_level_d(rng, n, k=6)),
-             ("elements", S.element_cases(rng, n))]
+             ("elements", S.element_cases(rng, n)),
+             ("targeted-special", special_d(rng, tier))]
         el = []
         for c in S.element_cases(rng, n // 2):
             e, w = case_wire(c)
@@ -226,12 +227,52 @@ class C01(Prop):
 
 # =================================================================================== C02
 
+def special_d(rng, tier):
+    """D cases shared by the decode-side properties: the targeted streams that other properties grew because a seeded
+    change slipped through (limits of labels/names on the wire, nested RDATA pointers at every offset geometry,
+    names equal only under Unicode folding, boundary values in both address renderings)"""
+    out = []
+    lab = lambda k: bytes([k]) + bytes(97 + (i % 26) for i in range(k))
+    q = lambda name: msg_wire(qd=[name + b"\x00\x01\x00\x01"])
+    for k in (0, 1, 62, 63, 64, 65, 127, 128, 191):
+        body = bytes([k]) + bytes(97 + (i % 26) for i in range(k))
+        out.append(S.d("Dns", q(body + b"\x00")))
+        out.append(S.d("Dns", q(lab(3) + body + b"\x00")))
+        out.append(S.d("Dns", q(b"\xc0\x0e" + body + b"\x00")))          # the label behind a pointer
+        out.append(S.d("DomainName", body + b"\x00"))
+        out.append(S.d("DomainName", b"\xc0\x02" + body + b"\x00"))
+    for total in range(252, 259):
+        labs, left = [], total - 1
+        while left > 1:
+            k = min(left - 1, 63)
+            labs.append(lab(k))
+            left -= k + 1
+        if left == 1:
+            continue
+        out.append(S.d("Dns", q(b"".join(labs) + b"\x00")))
+        out.append(S.d("Dns", q(labs[0] + bytes([0xC0, 12 + len(labs[0]) + 2]) + b"".join(labs[1:]) + b"\x00")))
+    for rr in rdata_offset_sweep(rng, 6 if tier != "thorough" else 12, 24 if tier != "thorough" else 36):
+        m = ('Dns', 7, ('F', 1, 0, 0, 0, 0, 0, 0, 0, 0), [], [rr], [], [])
+        out.append(S.d("Dns", G.render_dns(m, G.Layout(rng, mode="lib"))[0]))
+        rn = G.Renderer(G.Layout(rng, mode="lib"))
+        rn.rr(rr)
+        out.append(S.d("RR", bytes(rn.buf)))
+    ms = merge_candidate_messages()
+    for m in ms[::3] if tier != "thorough" else ms:
+        out.append(S.d("Dns", G.render_dns(m, G.Layout(rng, mode='plain'))[0]))
+    for m in boundary_messages():
+        for addr in ("min", "full"):
+            out.append(S.d("Dns", G.render_dns(m, G.Layout(rng, mode="lib", addr=addr))[0]))
+    return out
+
+
 def dns_d_streams(rng, n, tier):
     s = [("corpus", S.corpus_d(("Dns",))),
          ("structured", S.structured_d(rng, n)),
          ("near-miss", S.near_miss_d(rng, n // 4, per=6)),
          ("byte-level", S.byte_level_d(rng, n // 2, k=4)),
-         ("nested-names", [S.d("Dns", nested_wire(k)) for k in range(1, 65)])]
+         ("nested-names", [S.d("Dns", nested_wire(k)) for k in range(1, 65)]),
+         ("targeted-special", special_d(rng, tier))]
     return s
 
 
@@ -866,7 +907,8 @@ class C07(Prop):
         over = overlong_via_pointer()
         return [("overlong-via-pointer", over),
                 ("pointer-graphs-name", graphs), ("pointer-graphs-question", gq), ("chains-1..64", chains),
-                ("fans", fans), ("mazes", mazes), ("corpus", S.corpus_d(("Dns", "DomainName")))]
+                ("fans", fans), ("mazes", mazes), ("corpus", S.corpus_d(("Dns", "DomainName"))),
+                ("targeted-special", special_d(rng, tier))]
 
     def view(self, case, line):
         d = parse_d(line)
@@ -943,7 +985,8 @@ class C09(Prop):
             for x in G.near_miss(rng, w, rn, per=10):
                 el.append(S.d("RR", x))
         return [("near-miss-dns", nm), ("near-miss-rr", el), ("guards", guard_cases()),
-                ("structured", S.structured_d(rng, n)), ("corpus", S.corpus_d(("Dns", "RR")))]
+                ("structured", S.structured_d(rng, n)), ("corpus", S.corpus_d(("Dns", "RR"))),
+                ("targeted-special", special_d(rng, tier))]
 
     def view(self, case, line):
         d = parse_d(line)
@@ -1290,7 +1333,9 @@ class C08(Prop):
         known.append("E Dns " + G.canon(msg(('RR', 65, ex, 1, 0, ('SVCB', 0, ('N', []), [('NODEF',), ('PORT', 1)])))))
         return [("around-0x3FFF", straddle_cases(range(-48, 49, 4) if tier == "quick" else range(-48, 49))),
                 ("string-lengths", strings), ("big-rdata-and-messages", big), ("oversized-sections", sections),
-                ("known-classes", known), ("valid-values", S.value_e(rng, n)), ("valid-rr", S.value_e_rr(rng, n))]
+                ("known-classes", known), ("valid-values", S.value_e(rng, n)), ("valid-rr", S.value_e_rr(rng, n)),
+                ("names-equal-only-under-unicode-folding", ["E Dns " + G.canon(m) for m in merge_candidate_messages()[::3]]),
+                ("boundary-values", ["E Dns " + G.canon(m) for m in boundary_messages()])]
 
     def nontrivial(self, case, line):
         return True
